@@ -119,6 +119,9 @@ def handleDec (mode : String) (hex : String) (impl : List String) : String :=
         -- arbitrary text: the property demands only no crash and no silently dropped row
         if impl.head? = some "ok" ∧ implRecordCount impl ≠ dataRowCount lines then
           s!"VIOL clause=ta.no_row_loss {tags}"
+        else if impl.head? = some "ok" ∧ mS.tag == "err" then
+          -- the reference decoder rejects this text (wrong field count, unparsable value, bad marker …)
+          s!"VIOL clause=ta.malformed_accepted {tags}"
         else s!"CORR clause=ta.decode_mut {tags} model={rS.take 300}"
 
 /-- numeric field of a record by target path -/
